@@ -59,8 +59,8 @@ Proof.
   split; [repeat split; reflexivity|reflexivity].
 Qed.
 
-(* the points of the rule that the message codec's datagrams need: GMSK, EDGE, legacy-padded EDGE *)
-Lemma rule_points : rule_at 148 = Ok 148%nat /\ rule_at 444 = Ok 444%nat /\ rule_at 446 = Ok 444%nat.
+(* the points of the rule that the message codec's datagrams need: GMSK, legacy-padded GMSK, EDGE, legacy-padded EDGE *)
+Lemma rule_points : rule_at 148 = Ok 148%nat /\ rule_at 150 = Ok 148%nat /\ rule_at 444 = Ok 444%nat /\ rule_at 446 = Ok 444%nat.
 Proof. repeat split; reflexivity. Qed.
 Lemma rule_env e n : get_len v0rx_rule e n = rule_at n.
 Proof. unfold rule_at. destruct (proj1 (proj2 defs_eq)) as [thr [a [b E]]]. rewrite E. reflexivity. Qed.
